@@ -97,7 +97,7 @@ func runC18Round6(c *Ctx) {
 			cntF = f.Name()
 		}
 	}
-	c.Rule("R16", "ATOM", "the user count is tested and changed in one critical section: in every method of the limiter that reads the reference counter and later writes it, the counter's lock is not released in between – a Start that slips in while the last Shutdown waits for the checker finds a counter that says `already running` and is left without a checker", 2)
+	c.Rule("R16", "ATOM", "the user count is tested and changed in one critical section: in every method of the limiter that reads the reference counter and later writes it, the counter's lock is not released in between – a Start that slips in while the last Shutdown waits for the checker finds a counter that says `already running` and is left without a checker", 1)
 	if lockF == "" || cntF == "" {
 		c.Anchor("reference counter and its lock in MemoryLimiter")
 	} else {
@@ -374,7 +374,7 @@ func runC02Round6(c *Ctx) {
 	funcs := p.AllSrcFuncs(pk)
 	sizeField := map[*types.Named]string{q.pq: "queueSize", q.mq: "size"}
 
-	c.Rule("R18", "PAIR", "freed space reaches every blocked producer that can use it: a release of queue space (a store that lowers the reported size, outside start-up) wakes ALL producers waiting for space (Broadcast on the space condition; each re-checks under the mutex) – waking one leaves a second small producer asleep next to free capacity, and a woken producer that still does not fit swallows the wake-up a smaller one behind it could have used", 3)
+	c.Rule("R18", "PAIR", "freed space reaches every blocked producer that can use it: a release of queue space (a store that lowers the reported size, outside start-up) wakes ALL producers waiting for space (Broadcast on the space condition; each re-checks under the mutex) – waking one leaves a second small producer asleep next to free capacity, and a woken producer that still does not fit swallows the wake-up a smaller one behind it could have used", 1)
 	n := 0
 	for _, T := range []*types.Named{q.pq, q.mq} {
 		for _, fn := range funcs {
@@ -418,7 +418,7 @@ func runC02Round6(c *Ctx) {
 		c.Undecided("space-releasing stores of the queues", "-", "not found")
 	}
 
-	c.Rule("R19", "GATE", "a request that can never fit is refused, not parked: every enqueue function that can wait for space tests the request's size against the capacity alone (size > capacity) before it waits, and returns an error on that side – with block_on_overflow a request larger than the capacity otherwise blocks on an EMPTY queue until its context ends and swallows the wake-ups of the producers behind it", 2)
+	c.Rule("R19", "GATE", "a request that can never fit is refused, not parked: every enqueue function that can wait for space tests the request's size against the capacity alone (size > capacity) before it waits, and returns an error on that side – with block_on_overflow a request larger than the capacity otherwise blocks on an EMPTY queue until its context ends and swallows the wake-ups of the producers behind it", 1)
 	n = 0
 	for _, T := range []*types.Named{q.pq, q.mq} {
 		for _, fn := range funcs {
